@@ -116,6 +116,13 @@ def apply_op(rig, op):
         share.update(odict([(k, v) for k, v in op[2]]))
     elif kind == "change":
         share.change(odict([(k, v) for k, v in op[2]]))
+    elif kind == "create":
+        if op[2] == "dict":
+            share.create(odict([(k, v) for k, v in op[3]]))
+        elif op[2] == "pairs":
+            share.create([(k, v) for k, v in op[3]])
+        else:
+            share.create(**dict((k, v) for k, v in op[3]))
     elif kind == "value":
         share.value = op[2]
     elif kind == "stamp":
